@@ -286,3 +286,8 @@ Print Assumptions c15_let_subst_closed.
 Theorem c15_symbol_names_are_symbols : ltac:(let t := type of core_ssn_symbol_wf in exact t).
 Proof. exact core_ssn_symbol_wf. Qed.
 Print Assumptions c15_symbol_names_are_symbols.
+
+From DD Require Import Props.C17Inline.
+Theorem c15_inline_closed : ltac:(let t := type of rw_inline_wf in exact t).
+Proof. exact rw_inline_wf. Qed.
+Print Assumptions c15_inline_closed.
